@@ -16,9 +16,9 @@ CLAIMED = {
    note=NOTE_COMMON + "one-byte arguments and prefixes; Redis' (first,last,step) table is hard-coded on the specification side"),
  "C01": dict(
    text="a reference RDB writer in the harness emits, per skeleton (28 value shapes x 4-6 attribute variants, metadata/multi-key/multi-db/encoded-key skeletons), a byte stream with symbolic field values, contents and length forms together with the expected records; the real loader (Header/NextBinEntry/Footer, readObjectValue, ReadString incl. int and LZF forms, module-aux skipping, createValueDump) runs on it from its SSA and every record field and the payload bytes (type || exact serialized bytes || version || CRC) are asserted for all symbolic values",
-   note=NOTE_COMMON + "skeletons are enumerated concretely (strings <= 3 bytes, <= 3 elements, <= 3 keys); DUMP and file CRCs are computed on the oracle side by the tool's own digest over the same byte terms (C11 shows that digest is CRC-64/Jones); the 16 MiB chunked hash is not encoded"),
+   note=NOTE_COMMON + "skeletons are enumerated concretely (strings <= 3 bytes, <= 3 elements, <= 3 keys); DUMP and file CRCs are computed on the oracle side by the tool's own digest over the same byte terms (C11 shows that digest is CRC-64/Jones); hashes split at the 16 MiB mark: 2..4 members of 16 MiB or 3 bytes in every combination over a paged (sparse) file image with the digest stubbed for that run; the package's own unit tests (loader) are also executed by the engine as a self-check of the encoder"),
  "C02": dict(
-   text="utils.RestoreRdbEntry with restoreBigRdbEntry, restoreQuicklistEntry, flushAndCheckReply, CompareVersion and the rdb reader helpers run from SSA against a model target: plain RESTORE route (policy x REPLACE support x pre-existing key x six version strings x expiry past/future/none x three ShiftTime values, symbolic payload, ttl, idle, freq), element route for 14 value skeletons (classic types, ziplist list/hash/zset with every entry encoding class, intset widths, zipmap incl. zmlen 254 and free bytes, quicklist, integer strings) with symbolic contents, chunked hashes, quicklist route, Bad-data-format fallback, Lua, flush-batch sizes; the model key must hold the source's logical value and ttl, policies none/ignore must leave the target untouched",
+   text="utils.RestoreRdbEntry with restoreBigRdbEntry, restoreQuicklistEntry, flushAndCheckReply, CompareVersion and the rdb reader helpers run from SSA against a model target: plain RESTORE route (policy x REPLACE support x pre-existing key x six version strings x expiry past/future/none x three ShiftTime values, symbolic payload, ttl, idle, freq), element route for 16 value skeletons (incl. 24/32/64-bit ziplist integers) (classic types, ziplist list/hash/zset with every entry encoding class, intset widths, zipmap incl. zmlen 254 and free bytes, quicklist, integer strings) with symbolic contents, chunked hashes, quicklist route, Bad-data-format fallback, Lua, flush-batch sizes; the model key must hold the source's logical value and ttl, policies none/ignore must leave the target untouched",
    note=NOTE_COMMON + "the model target (tiny Redis) is trusted; the clock is a fixed instant with a symbolic ExpireAt (a symbolic clock needs 64-bit division by 10^6 that no back end decides); zset scores from a concrete list; counterexamples replayed by engine-concrete re-execution (stubbed clock); one known finding (chunked hash + ignore)"),
  "C03": dict(
    text="source side: parseSourceCommand runs on the real RESP decoder over streams built from 14 command templates (SELECT in both letter cases, single/multi-key writes, PING, MULTI/EXEC, sentinel hello, script commands, opinfo, unknown) x 8 filter/target.db/resume configurations with symbolic keys, values, prefixes and start offset; the forwarded items, replayed with a current-database register, must be exactly the surviving commands with byte-identical argv, database and offset. Target side: sendTargetCommand with a producer, a ticker channel fed at a symbolic point and the model target under every interleaving (preemption bound 1, thorough 2): commands sent = items received minus source MULTI/EXEC, in order; nothing left unflushed two ticks after the stream went idle; no empty flush; barrier automaton table",
@@ -28,33 +28,33 @@ CLAIMED = {
    note=NOTE_COMMON + "cuts fall between commands (a partially received command equals not received); k <= 2 items quick (3 thorough); every tick/arrival interleaving within the preemption bound"),
  "C05": dict(
    text="waitRdbDump ('$<n>' header with 0..2 keep-alive newlines, 1..3 symbolic digits, every read size), Iocopy (one bounded copy from an arbitrary reader position, symbolic max), SendPSyncContinue on +FULLRESYNC/+CONTINUE replies in three letter-case styles with symbolic run id and offset digits followed by '$n' and data over real bufio with symbolic fragmentation, and runIncrementalSync end to end (RDB loop, pSyncPipeCopy, reconnect with scripted second connection) into the real pipe: the consumer sees exactly the n RDB bytes then the command bytes, in order, across segmentations and the reconnect; run id / offset / size are the announced ones; the request is PSYNC runid offset+1",
-   note=NOTE_COMMON + "RDB <= 3 bytes, command bytes <= 4; {1, half, all} fragmentation for the PSYNC reply family; dump mode (dbDumper) is not covered (package run: see C07/C16 notes); network dialing stubbed"),
+   note=NOTE_COMMON + "RDB <= 3 bytes, command bytes <= 4; {1, half, all} fragmentation for the PSYNC reply family; dump mode (dbDumper.dump/sendCmd/dumpRDBFile) over a scripted connection and an in-memory file, also with progress timers that may fire at any moment and slow output; network dialing stubbed"),
  "C08": dict(
-   text="pSyncPipeCopy with a scripted source connection (1..3 reads of symbolic size, then a read error) and the 1 s ticker replaced by a channel the harness feeds before any read: every REPLCONF ACK after full sync must equal start offset + bytes received so far, be non-decreasing and never ahead, 0 before full sync; returned byte count and forwarded bytes exact; after a drop runIncrementalSync must ask PSYNC runid (start + received + 1); parser tagging offset = start + decoder position (VF_C03_Parse); SendPSyncContinue request side",
+   text="pSyncPipeCopy with a scripted source connection (1..3 reads of symbolic size, then a read error) and the 1 s ticker replaced by a channel the harness feeds before any read: every REPLCONF ACK after full sync must equal start offset + bytes received so far, be non-decreasing and never ahead, 0 before full sync; returned byte count and forwarded bytes exact; after a drop runIncrementalSync must ask PSYNC runid (start + received + 1); a refused PSYNC (error reply, PSYNC2-style reply, drop) must not move the offset the next reconnect asks for; parser tagging offset = start + decoder position (VF_C03_Parse); SendPSyncContinue request side",
    note=NOTE_COMMON + "two known findings (acknowledged offset runs ahead from the second tick; PSYNC after a drop re-requests bytes received since the last tick), both from the same bookkeeping; wall-clock durations replaced by event order"),
  "C06": dict(
-   text="the filter predicates (FilterKey with symbolic keys <= 4 bytes and two symbolic prefixes <= 3 bytes, checkpoint keys, FilterDB, FilterSlot, FilterCommands in any letter case) against reference predicates, and their application in each data path against the same references: incremental (parseSourceCommand), full sync (syncRDBFile incl. slot list and Lua entries), restore mode (restoreRDBFile), rump (fetcher/doFetch/getSourceDbList)",
-   note=NOTE_COMMON + "one entry/command stream per run as bounded in C03/C07/C16; restoreCommand's inner-usage replay and main/sanitize.go are outside"),
+   text="the filter predicates (FilterKey with symbolic keys <= 4 bytes and two symbolic prefixes <= 3 bytes, checkpoint keys, FilterDB, FilterSlot, FilterCommands in any letter case) against reference predicates, and their application in each data path against the same references: incremental (parseSourceCommand), full sync (syncRDBFile incl. slot list and Lua entries), restore mode (restoreRDBFile, and restoreCommand's replay of the trailing command stream against the same filter specification as incremental sync), rump (fetcher/doFetch/getSourceDbList)",
+   note=NOTE_COMMON + "one entry/command stream per run as bounded in C03/C07/C16; main/sanitize.go is outside"),
  "C07": dict(
    text="syncRDBFile and restoreRDBFile with the loader replaced by a pre-filled closed channel of m <= 3 entries (symbolic db, key, one Lua script entry, one failing restore), 1..2 workers (3 thorough), per-worker connect failure, filters and target.db: under every distribution of entries over workers and interleaving within the bound each passing entry is restored exactly once on a connection whose selected database is the entry's (or target.db), filtered ones never, success only after the channel is drained, a failed restore or connect is reported",
    note=NOTE_COMMON + "RestoreRdbEntry is replaced by a recording stub here (its own behaviour is C02); preemption bound 1; time.After never fires"),
  "C09": dict(
-   text="ring offset lemmas (roffset/woffset) for arbitrary 64-bit positions; one-step refinement of memBuffer/fileBuffer readSome/writeSome from an arbitrary valid symbolic state against a ghost stream; sequential close rules on the real pipe; protocol runs with a writer goroutine and the reader in the main goroutine where every interleaving at mutex/cond/channel granularity (preemption bound 2, thorough 3) is a branch of the search, with deadlock detection and an explicit hand-shake so that wake-up must come from progress, not from close",
+   text="ring offset lemmas (roffset/woffset) for arbitrary 64-bit positions; one-step refinement of memBuffer/fileBuffer readSome/writeSome from an arbitrary valid symbolic state against a ghost stream; sequential close rules on the real pipe; protocol runs with a writer goroutine and the reader in the main goroutine where every interleaving at mutex/cond/channel granularity (preemption bound 2, thorough 3) is a branch of the search, with deadlock detection and an explicit hand-shake so that wake-up must come from progress, not from close; a writer blocked with k bytes pending must refill the ring after every shorter read",
    note=NOTE_COMMON + "concrete ring sizes in the lemmas (a symbolic size is not decided within 60 s by any back end); step lemmas on an 8-byte ring; stream-length induction on paper; sync.Mutex/Cond/WaitGroup are engine primitives; schedule-dependent counterexamples are replayed by engine-concrete re-execution"),
  "C16": dict(
-   text="dbRumperExecutor.exec with fetcher, writer, receiver and the statistics loop as goroutines against a model source (INFO keyspace, SELECT, pipelined DUMP/PTTL over 2 databases, 1..2 scan pages incl. an empty one, keys that vanished before DUMP, no-expiry and symbolic positive PTTL, symbolic payloads, big-key expansion through RestoreBigkey) and two model-target connections sharing a keyspace, batch sizes 1..2, key_exists none/rewrite, target.db, db and key filters: every passing existing key arrives with payload/elements, ttl (none stays none) and database; vanished keys are skipped; the executor terminates (no deadlock)",
+   text="dbRumperExecutor.exec with fetcher, writer, receiver and the statistics loop as goroutines against a model source (INFO keyspace, SELECT, pipelined DUMP/PTTL over 2 databases, 1..2 scan pages incl. an empty one, keys that vanished before DUMP, no-expiry and symbolic positive PTTL, symbolic payloads, big-key expansion through RestoreBigkey) and two model-target connections sharing a keyspace, batch sizes 1..2, key_exists none/rewrite, target.db, db and key filters, big and ordinary keys mixed in a non-zero database; the key-file scanner alone: every passing existing key arrives with payload/elements, ttl (none stays none) and database; vanished keys are skipped; the executor terminates (no deadlock)",
    note=NOTE_COMMON + "delay-bounded scheduling (default round-robin successor, <= 1 deviation quick / 2 thorough); the statistics ticker fires only at quiescence; the SCAN reply parser (reflection) is replaced by a harness scanner; target empty at start"),
  "C17": dict(
-   text="restricted claim: CmdDecode.decode with its fan-out/fan-in goroutines and decoderMain run from SSA (parallel 1..2, delay-bounded schedules) on entries of every classic type and a ziplist-encoded hash with symbolic keys, values (non-printable and non-UTF-8 bytes included), score bits, several keys plus a Lua script: one record per element with database, type, expiry, list index, base64 fields equal to base64 of the exact bytes (real encoding/base64 code), score numerically equal, nothing omitted/duplicated/attributed to another key under every schedule explored, the run ends",
+   text="restricted claim: CmdDecode.decode with its fan-out/fan-in goroutines and decoderMain run from SSA (parallel 1..2, delay-bounded schedules) on entries of every classic type and a ziplist-encoded hash with symbolic keys, values (non-printable and non-UTF-8 bytes included), score bits, several keys plus Lua scripts at every position, and one run with a text above 1 MiB next to a small key on two workers: one record per element with database, type, expiry, list index, base64 fields equal to base64 of the exact bytes (real encoding/base64 code), score numerically equal, nothing omitted/duplicated/attributed to another key under every schedule explored, the run ends",
    note=NOTE_COMMON + "encoding/json.Marshal is a contract model (field order, unescaped strings, NaN/Inf => error): that the printed text is valid JSON is outside the claim; file I/O stubbed; one known finding (NaN/Inf score aborts the run)"),
  "C18": dict(
    text="offset lemmas (roffset/woffset) for arbitrary 64-bit positions; one-step refinement of the memory and file backed stores (readSomeAt from an arbitrary offset and write position: exact bytes or ErrInvalidOffset exactly when overwritten/future; writeSome; dataRange) against a ghost stream; sequential API behaviour (Reader, SeekTo/IsValid, wrap beyond capacity, close); protocol runs with one writer and up to two blocked readers under every interleaving (Broadcast wake-up, close wakes all with an error, no deadlock)",
    note=NOTE_COMMON + "concrete ring sizes in the lemmas; step lemmas on an 8-byte ring; induction over histories on paper; sync primitives are engine primitives; *os.File is a byte-store stub in the file flavour"),
  "C19": dict(
-   text="information flow decided by the solver: source and target passwords are unconstrained symbolic strings; every log call reached (sync start incl. constructor, retry bookkeeping, topology discovery with every outcome, checkpoint load, failing PSYNC and restart; checkpoint loader; slot supervisor) is rendered with a model of fmt's %v/%+v/%s traversal, and for each rendered line, GetExtraInfo value and the GetSafeOptions copy the query 'exists a password value not contained in the text' must be satisfiable; unsat = the password flows into the output",
-   note=NOTE_COMMON + "the fmt model (struct/pointer/slice/map traversal, Error/String methods) is engine code and trusted; main's startup echo, the HTTP layer and third-party logging are outside; sendPSyncCmd and the metric registry are stubbed"),
+   text="information flow decided by the solver: source and target passwords are unconstrained symbolic strings; every log call reached (sync start incl. constructor, retry bookkeeping, topology discovery with every outcome, checkpoint load, failing PSYNC and restart; checkpoint loader; slot supervisor) is rendered with a model of fmt's %v/%+v/%s traversal, and for each rendered line, each GetExtraInfo value (restart counter 0..3) and the GetSafeOptions copy — both also as the JSON document encoding/json would produce (exported fields, pointers followed, String() not consulted) — and CmdSync.Main's start-up, the query 'exists a password value not contained in the text' must be satisfiable; unsat = the password flows into the output",
+   note=NOTE_COMMON + "the fmt model (struct/pointer/slice/map traversal, Error/String methods) is engine code and trusted; main (does not type-check), the HTTP layer and third-party logging are outside; sendPSyncCmd and the metric registry are stubbed"),
  "C20": dict(
-   text="getRedisNodeState on INFO text with symbolic filler against a reference role parser, and GetSlotState/recursiveGetSlotState with an injected connection factory whose outcome per node and per retry round (connect error, command error, master, slave, no role, role not at line start) is a solver-visible choice: chosen source reported master in the deciding round, every other known node listed once as replica, erroring nodes never chosen, exactly maxRetries+1 rounds then an error when no master exists",
+   text="getRedisNodeState on INFO text with symbolic filler against a reference role parser (regular expressions evaluated symbolically over the text), and GetSlotState/recursiveGetSlotState with an injected connection factory whose outcome per node and per retry round (connect error, command error, master, slave, no role, role not at line start) is a solver-visible choice: chosen source reported master in the deciding round, every other known node listed once as replica, erroring nodes never chosen, exactly maxRetries+1 rounds then an error when no master exists",
    note=NOTE_COMMON + "<= 3 nodes x <= 2 rounds quick (4 nodes / 3 rounds thorough); time.Sleep has no duration; the real network factory is outside"),
  "C10": dict(
    text="18 value-tree skeletons (depth <= 3, payloads <= 3 symbolic bytes, small symbolic integers, nil vs empty) encoded with the real encoder, embedded in a stream with keep-alive newlines and a following value, decoded with the real decoder over real bufio: equality, exact byte position and intact remainder asserted for all payload values; integers across the imap boundaries; inline commands; corruption families (CR, LF, non-numeric and negative lengths, unknown type in array, every truncation point) must yield an error; ParseArgs/ChangeArgsToResp round trip",
